@@ -160,8 +160,7 @@ def parseAlts (w : String) : Option (List (Nat × String)) :=
     | [k, v] => k.toNat?.map fun k => (k, v)
     | _ => none
 
-def ftextLine (fn : String) (s : List Nat) (alts : List (Nat × String)) : String :=
-  let ws := (s.takeWhile isSpace).length
+def ftextLine (_fn : String) (s : List Nat) (alts : List (Nat × String)) : String :=
   let best := alts.foldl (fun (b : Option (Nat × String)) a => match b with
     | some (k, _) => if a.1 > k then some a else b
     | none => some a) none
@@ -171,7 +170,7 @@ def ftextLine (fn : String) (s : List Nat) (alts : List (Nat × String)) : Strin
     else match best with
       | some (k, v) => if v = "ovf" then ("refused", "BadValue", "-") else ("ok", toString k, v)
       | none =>
-        if s.all isSpace then ("ok", if fn = "string" then toString ws else "0", "-")
+        if s.all isSpace then ("ok", "0", "-")
         else ("refused", "BadType", "-")
   let nn := if r.1 = "ok" then r.2.1 else "-"
   let oks := (List.range (s.length + 1)).filterMap fun k =>
